@@ -1,11 +1,260 @@
-(* C09 — Android: crashing format arguments and bad quoting are errors. *)
+(* C09 — Android: crashing format arguments and bad quoting are errors.
+
+   Model: Model/CheckAndroid.v (AndroidChecker.check, check_string, the early
+   exits, check_apostrophes, get_params, check_params, Checker.check's encoding
+   warning, textContent) over the regular expressions, messages, severities and
+   constants regenerated from the source (Generated/RxC09.v, C09Facts.v).
+   Vocabulary (Proofs/CheckAndroidSpec.v, definitions only):
+
+     args s             the argument occurrences of s as (position, conversion, offset),
+                        implicit positions numbered 1, 2, ... in order of appearance
+     first_conv k rs    the conversion of the first occurrence using position k
+     is_conflict rs i   i reports a later occurrence of a position whose conversion
+                        differs from the first one
+     is_not_in_ref / is_mismatch / is_omitted   (against the reference's map)
+     simple_content cs  cs = [] \/ one text node \/ one CDATA between blank text nodes
+     qtok, qrender      quoting tokens (character, backslash escape, bare apostrophe,
+                        bare quote) and their text
+     quoting_model ts   the token-level quoting rule (doubled quotes counted in pairs
+                        from the left; escapes and quote pairs silenced; apostrophes
+                        reported unless the silenced value starts and ends with a quote)
+
+   Theorems only; proofs are in Proofs/CheckAndroid*.v. *)
 From Coq Require Import NArith List Bool Arith.
-From CL Require Import Base.Sx Base.Res Base.Str Regex.Rx Model.CheckAndroid.
+From CL Require Import Base.Sx Base.Res Base.Str Regex.Rx Generated.RxC09 Generated.C09Facts
+  Model.CheckAndroid Proofs.CheckAndroidSpec Proofs.CheckAndroidParams Proofs.CheckAndroidExits
+  Proofs.CheckAndroidQuoting Proofs.CheckAndroidClean Proofs.CheckAndroidTotal
+  Proofs.CheckAndroidFinal.
 Import ListNotations.
 
-Example C09_example_apostrophes :
-  match check_apostrophes (map N.of_nat [105; 116; 39; 115; 32; 34; 34]) with
-  | Ok l => map (fun i => (i_error i, i_pos i)) l = [(true, PInt 5); (true, PInt 2)]
+(* ---- arguments ------------------------------------------------------------------------------ *)
+(* get_params never raises; its map is the first conversion per position under
+   implicit numbering, its count the number of occurrences, its messages the
+   conflicting later occurrences *)
+Theorem C09_params_map : forall s, exists st,
+  get_params s = Ok st /\
+  (forall k, pget k (ps_params st) = first_conv k (args s)) /\
+  NoDup (map fst (ps_params st)) /\
+  ps_count st = length (args s) /\
+  (forall e, In e (ps_errors st) <->
+     exists k f p f2, In (k, f, p) (args s) /\ first_conv k (args s) = Some f2 /\ f2 <> f /\
+                      e = (render t_conflict [dec_of_nat k; f; f2], p)).
+Proof. exact get_params_spec. Qed.
+
+(* the errors of check_params are exactly: conflicts within the localized string,
+   positions absent from the reference, positions with a different conversion *)
+Theorem C09_params : forall (params : pmap) (count : nat) (s : str), exists issues,
+  check_params params count s = Ok issues /\
+  forall i, (In i issues /\ i_error i = true) <->
+    (is_conflict (args s) i \/ is_not_in_ref params (args s) i \/ is_mismatch params (args s) i).
+Proof. exact params_errors. Qed.
+
+(* every occurrence uses a position of the reference with its conversion: no error *)
+Theorem C09_params_subset_no_error : forall (params : pmap) (count : nat) (s : str),
+  (forall k f p, In (k, f, p) (args s) -> pget k params = Some f) ->
+  exists issues, check_params params count s = Ok issues /\
+                 Forall (fun i => i_error i = false) issues.
+Proof. exact params_subset_no_error. Qed.
+
+(* omitted positions are reported, as warnings ... *)
+Theorem C09_params_omitted_warning : forall (params : pmap) (count : nat) (s : str) k f,
+  In (k, f) params -> first_conv k (args s) = None ->
+  exists issues, check_params params count s = Ok issues /\
+                 In (not_in_l10n_issue k f) issues /\ i_error (not_in_l10n_issue k f) = false.
+Proof. exact params_omitted_warning. Qed.
+
+(* ... and nothing else is a warning but the count mismatch *)
+Theorem C09_params_warnings : forall (params : pmap) (count : nat) (s : str), exists issues,
+  check_params params count s = Ok issues /\
+  forall i, In i issues -> i_error i = false -> is_omitted params (args s) i \/ i = count_issue.
+Proof. exact params_warnings. Qed.
+
+(* ---- quoting ------------------------------------------------------------------------------------ *)
+(* on the text of a token list the verdict is the token-level model *)
+Theorem C09_apostrophes_tokens : forall ts, qtoks_ok ts ->
+  check_apostrophes (qrender ts) = Ok (quoting_model ts).
+Proof. exact check_apostrophes_tokens. Qed.
+
+(* consequences in words: properly escaped -> nothing; two adjacent bare quotes ->
+   an error; a bare apostrophe in a value not starting with a quote -> an error;
+   a value enclosed in quotes may contain bare apostrophes *)
+Theorem C09_apostrophes_clean : forall ts, qtoks_ok ts ->
+  ~ In QApos ts -> ~ adjacent_quotes ts -> check_apostrophes (qrender ts) = Ok [].
+Proof.
+  intros ts H1 H2 H3. rewrite check_apostrophes_tokens by exact H1.
+  rewrite quoting_clean; auto.
+Qed.
+
+Theorem C09_apostrophes_double_quotes : forall pre post, qtoks_ok (pre ++ QQuote :: QQuote :: post) ->
+  exists issues off, check_apostrophes (qrender (pre ++ QQuote :: QQuote :: post)) = Ok issues /\
+    In (lit_issue y_double_quotes off) issues /\ i_error (lit_issue y_double_quotes off) = true.
+Proof.
+  intros pre post H. rewrite check_apostrophes_tokens by exact H.
+  destruct (quoting_double_error _ pre post eq_refl) as [off Ho].
+  exists (quoting_model (pre ++ QQuote :: QQuote :: post)), off. auto.
+Qed.
+
+Theorem C09_apostrophes_bare : forall ts, qtoks_ok ts ->
+  In QApos ts -> (forall ts', ts <> QQuote :: ts') ->
+  exists issues off, check_apostrophes (qrender ts) = Ok issues /\
+    In (lit_issue y_apostrophe off) issues /\ i_error (lit_issue y_apostrophe off) = true.
+Proof.
+  intros ts H1 H2 H3. rewrite check_apostrophes_tokens by exact H1.
+  destruct (quoting_apostrophe_error ts H2) as [off Ho].
+  - destruct (q_hd_quote ts) eqn:E; auto. apply q_hd_quote_true in E.
+    destruct E as [ts' E]. exfalso. eapply H3. exact E.
+  - exists (quoting_model ts), off. auto.
+Qed.
+
+Theorem C09_apostrophes_whole_string : forall mid, qtoks_ok (QQuote :: mid ++ [QQuote]) ->
+  mid <> [] -> ~ In QQuote mid ->
+  exists issues, check_apostrophes (qrender (QQuote :: mid ++ [QQuote])) = Ok issues /\
+                 forall off, ~ In (lit_issue y_apostrophe off) issues.
+Proof.
+  intros mid H1 H2 H3. rewrite check_apostrophes_tokens by exact H1.
+  eexists. split; [reflexivity|]. apply quoting_whole_string; auto.
+Qed.
+
+(* ---- early exits ---------------------------------------------------------------------------------- *)
+(* the test for non-simple data is the declarative shape *)
+Theorem C09_non_simple_iff : forall n,
+  non_simple_data n = false <-> simple_content (n_children n).
+Proof. exact non_simple_data_iff. Qed.
+
+(* translatable="false" on either side / an @string/ reference / non-simple data:
+   after the encoding warnings exactly the one error (the last case possibly
+   preceded by the warning about an @string/ reference) and nothing else *)
+Theorem C09_early_exits : forall ref l10n,
+  n_name (e_node ref) = s_string -> n_name (e_node l10n) = s_string ->
+  let untranslatable :=
+    n_transl (e_node l10n) = Some s_false \/ n_transl (e_node ref) = Some s_false in
+  let reference := exists rest, val l10n = s_at_string ++ rest in
+  exists enc, check_base l10n = Ok enc /\ Forall is_warning enc /\
+  (untranslatable ->
+     check ref l10n = Ok (enc ++ [lit_issue y_not_translatable 0])) /\
+  (~ untranslatable -> reference ->
+     check ref l10n = Ok (enc ++ [lit_issue y_at_string 0])) /\
+  (~ untranslatable -> ~ reference -> ~ simple_content (n_children (e_node l10n)) ->
+     exists w, check ref l10n = Ok (enc ++ w ++ [lit_issue y_non_simple 0]) /\
+               (w = [] \/ w = [lit_issue y_at_string_ref 0])).
+Proof. exact early_exits. Qed.
+
+Theorem C09_early_exit_one_error : forall ref l10n,
+  n_name (e_node ref) = s_string -> n_name (e_node l10n) = s_string ->
+  (n_transl (e_node l10n) = Some s_false \/ n_transl (e_node ref) = Some s_false) \/
+  (exists rest, val l10n = s_at_string ++ rest) \/
+  ~ simple_content (n_children (e_node l10n)) ->
+  exists issues e, check ref l10n = Ok issues /\ errors_of issues = [e] /\
+    (e = lit_issue y_not_translatable 0 \/ e = lit_issue y_at_string 0 \/
+     e = lit_issue y_non_simple 0).
+Proof. exact early_exit_one_error. Qed.
+
+(* ---- clean strings are never errors ---------------------------------------------------------------- *)
+Theorem C09_clean_no_error : forall ref l10n ts,
+  n_name (e_node ref) = s_string -> n_name (e_node l10n) = s_string ->
+  n_transl (e_node l10n) <> Some s_false -> n_transl (e_node ref) <> Some s_false ->
+  simple_content (n_children (e_node l10n)) ->
+  (forall rest, val l10n <> s_at_string ++ rest) ->
+  val l10n = qrender ts -> qtoks_ok ts -> ~ In QApos ts -> ~ adjacent_quotes ts ->
+  (forall k f p, In (k, f, p) (args (val l10n)) ->
+                 first_conv k (args (text_content (e_node ref))) = Some f) ->
+  exists issues, check ref l10n = Ok issues /\ Forall is_warning issues.
+Proof. exact clean_final. Qed.
+
+(* the check never raises (no fuel exhaustion, int(order[0]) always gets a digit) *)
+Theorem C09_total : forall ref l10n, exists issues, check ref l10n = Ok issues.
+Proof. exact check_total. Qed.
+
+(* ---- the constants the statements mention are what they look like ------------------------------------ *)
+Example C09_constants :
+  s_false = map N.of_nat [102; 97; 108; 115; 101] /\
+  s_at_string = map N.of_nat [64; 115; 116; 114; 105; 110; 103; 47] /\
+  s_string = map N.of_nat [115; 116; 114; 105; 110; 103] /\
+  i_error (lit_issue y_not_translatable 0) = true /\ i_error (lit_issue y_at_string 0) = true /\
+  i_error (lit_issue y_non_simple 0) = true /\ i_error (lit_issue y_at_string_ref 0) = false /\
+  i_error (lit_issue y_double_quotes 0) = true /\ i_error (lit_issue y_apostrophe 0) = true /\
+  i_error (not_in_ref_issue 1 []) = true /\ i_error mismatch_issue = true /\
+  i_error (conflict_issue 1 [] [] 0) = true.
+Proof. vm_compute. repeat split. Qed.
+
+(* ---- concrete runs (non-vacuity) ----------------------------------------------------------------------- *)
+Definition ex_str (l : list nat) : str := map N.of_nat l.
+(* %1$s %d   (the second argument gets the implicit position 1: a conflict) *)
+Definition ex_conflict : str := ex_str [37; 49; 36; 115; 32; 37; 100].
+(* %2$d %s *)
+Definition ex_l10n : str := ex_str [37; 50; 36; 100; 32; 37; 115].
+(* %1$s *)
+Definition ex_ref : str := ex_str [37; 49; 36; 115].
+
+Example C09_example_args :
+  args ex_conflict = [(1, ex_str [115], 0); (1, ex_str [100], 5)] /\
+  args ex_l10n = [(2, ex_str [100], 0); (1, ex_str [115], 5)].
+Proof. vm_compute. split; reflexivity. Qed.
+
+(* reference %1$s, localized %2$d %s: position 2 is not in the reference *)
+Example C09_example_params :
+  match get_params ex_ref with
+  | Ok r =>
+      match check_params (ps_params r) (ps_count r) ex_l10n with
+      | Ok l => map (fun i => (i_error i, i_msg i)) l =
+                [(true, ex_str [70; 111; 114; 109; 97; 116; 116; 101; 114; 32; 37; 50; 36; 100; 32;
+                                110; 111; 116; 32; 102; 111; 117; 110; 100; 32; 105; 110; 32; 114;
+                                101; 102; 101; 114; 101; 110; 99; 101])]
+      | Raise _ => False
+      end
   | Raise _ => False
   end.
 Proof. vm_compute. reflexivity. Qed.
+
+(* the premise of C09_params_subset_no_error holds for %1$s against %1$s *)
+Example C09_example_subset :
+  forall k f p, In (k, f, p) (args ex_ref) -> pget k [(1, ex_str [115])] = Some f.
+Proof.
+  intros k f p H. vm_compute in H. destruct H as [H|[]]. inversion H; subst. reflexivity.
+Qed.
+
+(* it's ""   -> doubled quotes at 5, apostrophe at 2 *)
+Example C09_example_apostrophes :
+  let ts := [QChar 105; QChar 116; QApos; QChar 115; QChar 32; QQuote; QQuote] in
+  qtoks_ok ts /\
+  check_apostrophes (qrender ts) =
+    Ok [lit_issue y_double_quotes 5; lit_issue y_apostrophe 2].
+Proof. split; [repeat constructor|vm_compute; reflexivity]. Qed.
+
+(* <string name="k">one<br/>two</string> : non-simple data, exactly one error *)
+Definition ex_node (cs : list child) : node := mknode s_string None cs [].
+Example C09_example_early_exit :
+  let l10n := mkent (ex_node [Text (ex_str [111]); Elem; Text (ex_str [116])]) (ex_str [107]) [] in
+  let ref := mkent (ex_node [Text (ex_str [97])]) (ex_str [107]) [] in
+  ~ simple_content (n_children (e_node l10n)) /\
+  check ref l10n = Ok [lit_issue y_non_simple 0].
+Proof.
+  split; [|vm_compute; reflexivity].
+  intro H. apply C09_non_simple_iff in H. vm_compute in H. discriminate.
+Qed.
+
+(* reference "%1$s a", localized "\'%1$s" : every premise of C09_clean_no_error holds *)
+Example C09_example_clean :
+  let ts := [QEsc 39; QChar 37; QChar 49; QChar 36; QChar 115] in
+  let l10n := mkent (ex_node [Text (qrender ts)]) (ex_str [107]) [] in
+  let ref := mkent (ex_node [Text (ex_str [37; 49; 36; 115; 32; 97])]) (ex_str [107]) [] in
+  simple_content (n_children (e_node l10n)) /\
+  (forall rest, val l10n <> s_at_string ++ rest) /\
+  val l10n = qrender ts /\ qtoks_ok ts /\ ~ In QApos ts /\ ~ adjacent_quotes ts /\
+  (forall k f p, In (k, f, p) (args (val l10n)) ->
+                 first_conv k (args (text_content (e_node ref))) = Some f) /\
+  check ref l10n = Ok [].
+Proof.
+  cbv zeta. split; [|split; [|split; [|split; [|split; [|split; [|split]]]]]].
+  - right. left. eexists. reflexivity.
+  - intros rest H. vm_compute in H. discriminate.
+  - reflexivity.
+  - repeat constructor.
+  - intro H. simpl in H. repeat (destruct H as [H|H]; [discriminate|]). exact H.
+  - intros [pre [t [post [H _]]]].
+    destruct pre as [|a [|b [|c [|d [|e pre]]]]]; try discriminate.
+    destruct pre; discriminate.
+  - intros k f p H. vm_compute in H. destruct H as [H|[]]. inversion H; subst.
+    vm_compute. reflexivity.
+  - vm_compute. reflexivity.
+Qed.
